@@ -1616,7 +1616,7 @@ func (x *c01) r3enc() {
 		x.R.Undecided(c01R3, name+": result buffer", x.pos(fn.Pos()), "more than one return")
 		return
 	}
-	buf, ok := flow.Strip(rets[0].Results[0]).(*ssa.MakeSlice)
+	buf, ok := c01FullView(flow.Strip(rets[0].Results[0])).(*ssa.MakeSlice)
 	if ok {
 		// make([]byte, 0, n) grown by append is the append form, not the indexed one
 		if k, isK := constI(buf.Len); isK && k == 0 {
@@ -1627,7 +1627,10 @@ func (x *c01) r3enc() {
 		mark := len(x.R.Obls)
 		if why := x.r3encAppend(fn, rets[0]); why != "" {
 			msg := "the result is " + flow.Expr(rets[0].Results[0]) + ": neither a buffer allocated here with make and filled by index, nor a recognised append form (" + why + ")"
-			if lib, hand := surrogateHandling(fn); lib && !hand && strings.Contains(why, "append sites feed the result") {
+			if bad := c01SitesByteOrder(fn); bad != "" {
+				// positive observation at one emission site, whatever the overall shape
+				x.R.Fail(c01R3, name+": result buffer", x.pos(rets[0].Pos()), bad)
+			} else if lib, hand := surrogateHandling(fn); lib && !hand && strings.Contains(why, "append sites feed the result") {
 				// the only thing an encoder can get wrong that the type system does not catch is
 				// the surrogate arithmetic; here that is left to unicode/utf16 and no surrogate
 				// constant appears in the function: several emission sites (one per plane) is a layout this rule does not read; a single-site form is still judged
@@ -1911,7 +1914,7 @@ func (x *c01) r3encAppend(fn *ssa.Function, ret *ssa.Return) string {
 	name := x.P.FuncName(fn)
 	u16enc := x.ext("unicode/utf16", "Encode")
 	u16app := x.ext("unicode/utf16", "AppendRune")
-	res := flow.Strip(ret.Results[0])
+	res := c01FullView(flow.Strip(ret.Results[0]))
 	// twoEdge: φ with exactly two distinct incoming values
 	other := func(phi *ssa.Phi, not ssa.Value) (ssa.Value, bool) {
 		if len(phi.Edges) != 2 {
@@ -2306,4 +2309,118 @@ func surrogateHandling(fn *ssa.Function) (lib, hand bool) {
 	}
 	visit(fn, 0)
 	return
+}
+
+// c01FullView strips re-slices that keep every element: x[:], x[:len(x)],
+// x[:len(x):len(x)] (the capacity is not part of the value).
+func c01FullView(v ssa.Value) ssa.Value {
+	for d := 0; d < 4; d++ {
+		sl, ok := v.(*ssa.Slice)
+		if !ok || sl.Low != nil {
+			return v
+		}
+		isLen := func(h ssa.Value) bool {
+			if h == nil {
+				return true
+			}
+			call, ok := h.(*ssa.Call)
+			if !ok {
+				return false
+			}
+			bi, ok := call.Common().Value.(*ssa.Builtin)
+			return ok && (bi.Name() == "len" || bi.Name() == "cap") && len(call.Common().Args) == 1 && call.Common().Args[0] == sl.X
+		}
+		if !isLen(sl.High) || !isLen(sl.Max) {
+			return v
+		}
+		if h, ok := sl.High.(*ssa.Call); ok && h.Common().Value.(*ssa.Builtin).Name() == "cap" {
+			return v
+		}
+		v = flow.Strip(sl.X)
+	}
+	return v
+}
+
+// c01SitesByteOrder looks at every append(buf, b0, b1, …) of byte expressions
+// in fn and reports a site where a pair (b2j, b2j+1) is positively
+// (byte(U>>8), byte(U)) — a code unit written high byte first — or where the
+// two units of a site are the results of one unicode/utf16.EncodeRune call in
+// the order (low surrogate, high surrogate). "" = nothing of the kind seen
+// (which is not a proof of anything).
+func c01SitesByteOrder(fn *ssa.Function) string {
+	type half struct {
+		unit ssa.Value
+		high bool
+	}
+	parse := func(v ssa.Value) (half, bool) {
+		cv, ok := v.(*ssa.Convert)
+		if !ok {
+			return half{}, false
+		}
+		if b, isB := cv.Type().Underlying().(*types.Basic); !isB || b.Kind() != types.Uint8 {
+			return half{}, false
+		}
+		in := cv.X
+		if bo, ok := in.(*ssa.BinOp); ok && bo.Op == token.AND {
+			if k, isK := constI(bo.Y); isK && k == 0xFF {
+				in = bo.X
+			}
+		}
+		if bo, ok := in.(*ssa.BinOp); ok && bo.Op == token.SHR {
+			if k, isK := constI(bo.Y); isK && k == 8 {
+				return half{flow.Strip(bo.X), true}, true
+			}
+			return half{}, false
+		}
+		return half{flow.Strip(in), false}, true
+	}
+	for _, b := range fn.Blocks {
+		for _, in := range b.Instrs {
+			call, ok := in.(*ssa.Call)
+			if !ok {
+				continue
+			}
+			bi, isB := call.Common().Value.(*ssa.Builtin)
+			if !isB || bi.Name() != "append" || len(call.Common().Args) != 2 {
+				continue
+			}
+			elems, ok := flow.VarArgs(call.Common().Args[1])
+			if !ok || len(elems) < 2 || len(elems)%2 != 0 {
+				continue
+			}
+			var units []ssa.Value
+			for j := 0; j+1 < len(elems); j += 2 {
+				if elems[j] == nil || elems[j+1] == nil {
+					units = nil
+					break
+				}
+				h0, ok0 := parse(elems[j])
+				h1, ok1 := parse(elems[j+1])
+				if !ok0 || !ok1 || h0.unit != h1.unit {
+					units = nil
+					break
+				}
+				if h0.high && !h1.high {
+					return fmt.Sprintf("the emission at %s writes byte(%s>>8) before byte(%s): the code unit goes out high byte first, UTF-16LE puts the low byte first", fn.Prog.Fset.Position(call.Pos()), flow.Expr(h0.unit), flow.Expr(h0.unit))
+				}
+				if h0.high == h1.high {
+					units = nil
+					break
+				}
+				units = append(units, h0.unit)
+			}
+			if len(units) == 2 {
+				e0, ok0 := units[0].(*ssa.Extract)
+				e1, ok1 := units[1].(*ssa.Extract)
+				if ok0 && ok1 && e0.Tuple == e1.Tuple && e0.Index == 1 && e1.Index == 0 {
+					if c, isC := e0.Tuple.(*ssa.Call); isC {
+						if f := c.Common().StaticCallee(); f != nil && f.Pkg != nil && f.Pkg.Pkg.Path() == "unicode/utf16" && f.Name() == "EncodeRune" {
+							return fmt.Sprintf("the emission at %s writes the low surrogate of utf16.EncodeRune before the high surrogate", fn.Prog.Fset.Position(call.Pos()))
+						}
+					}
+				}
+			}
+		}
+	}
+	return ""
 }
